@@ -32,7 +32,7 @@ type C17Case struct {
 
 var c17Tags = []string{"t1", "t2", "t3"}
 var c17Msgs = []string{"m1", "m2", "m3"}
-var c17Names = []string{"a", "b", "ab", "x", "c1", "c2"}
+var c17Names = []string{"a", "b", "ab", "x", "c1", "c2", "Ab", "SessionToken"}
 
 func genC17Rule(t *rapid.T, r *Rule) {
 	nt := rapid.IntRange(1, 2).Draw(t, "nt")
@@ -187,6 +187,18 @@ func genC17(t *rapid.T) *C17Case {
 		if strings.HasPrefix(d.CtlOpt, "ruleRemoveTarget") {
 			// one ctl action per target: several removals on the same rule accumulate
 			d.Targets = genTargets(true)
+			if d.CtlOpt == "ruleRemoveTargetById" && rapid.IntRange(0, 2).Draw(t, "exacttarget") == 0 {
+				// the removal names exactly a target the rule inspects, spelled as the rule spells it
+				if id, err := strconv.Atoi(strings.SplitN(d.IDs[0], "-", 2)[0]); err == nil {
+					for _, r := range c.Base {
+						if r.ID == id && len(r.Targets) > 0 && !r.Targets[0].Neg && !r.Targets[0].Count {
+							tg := r.Targets[0]
+							tg.Neg = true
+							d.Targets = []Target{tg}
+						}
+					}
+				}
+			}
 			if rapid.Bool().Draw(t, "pair") {
 				// two removals on one collection that differ only in their regex key (or: a regex key, then the whole collection)
 				v := rapid.SampledFrom([]string{"ARGS_GET", "ARGS", "ARGS_GET_NAMES"}).Draw(t, "pairvar")
